@@ -88,14 +88,15 @@ BOTTOM = mk("bottom")
 
 
 class Effect(object):
-    __slots__ = ("kind", "gate", "info", "loc", "stack")
+    __slots__ = ("kind", "gate", "info", "loc", "stack", "sites")
 
-    def __init__(self, kind, gate, info, loc, stack):
+    def __init__(self, kind, gate, info, loc, stack, sites=()):
         self.kind = kind
         self.gate = gate
         self.info = info
         self.loc = loc
         self.stack = stack
+        self.sites = sites
 
     def __repr__(self):
         return "Effect(%s @%s gate=%s info=%s)" % (self.kind, self.loc,
@@ -113,6 +114,7 @@ class Ev(object):
         self.closures = {}
         self.nclos = 0
         self.call_stack = []
+        self.call_sites = []
         self.loops_info = {}
         self.nloop = 0
         self.const_cache = {}
@@ -124,6 +126,8 @@ class Ev(object):
         self.active_frames = []
         self._prop_cache = {}
         self._budget = 0
+        self.cur_site = None
+        self.opaque_defs = set()   # def keys / pretty paths summarised as uninterpreted calls (modular analysis)
 
     # ------------------------------------------------------------------ store
     def new_cell(self, v, name=None):
@@ -322,16 +326,25 @@ class Ev(object):
         self._budget -= 1
         if self._budget <= 0:
             return None
-        # unit facts first
+        # unit facts first; an arithmetic fact with embedded conditions (ite inside) is kept
+        # until those conditions are decided, so that deciding them can falsify it
         atom = None
+        embedded = None
         for f in todo:
-            if f.op not in ("and", "or", "ite", "not"):
-                atom, val = f, True
-                break
-            if f.op == "not" and f.a[0].op not in ("and", "or", "ite", "not"):
-                atom, val = f.a[0], False
-                break
+            g, val0 = (f, True) if f.op != "not" else (f.a[0], False)
+            if g.op in ("and", "or", "ite", "not"):
+                continue
+            if g.op in ("eq", "lt", "le"):
+                c = _embedded_cond(g)
+                if c is not None:
+                    if embedded is None:
+                        embedded = c
+                    continue
+            atom, val = g, val0
+            break
         unit = atom is not None
+        if atom is None and embedded is not None:
+            atom, val = embedded, True
         if atom is None:
             ats = _atoms(todo[0])
             if not ats:
@@ -392,7 +405,7 @@ class Ev(object):
     def effect(self, kind, info, loc):
         if self.discover:
             return
-        self.effects.append(Effect(kind, self.gate(), info, loc, tuple(self.call_stack)))
+        self.effects.append(Effect(kind, self.gate(), info, loc, tuple(self.call_stack), tuple(self.call_sites)))
 
     # ------------------------------------------------------------------ branches
     def branch(self, cond, then_fn, else_fn):
@@ -433,6 +446,9 @@ class Ev(object):
             self.pc.extend(g1)
             return v1
         self.store = self.merge(cond, s1, s2)
+        if (g1 or g2) and len(g1) + len(g2) <= 8:
+            # what was learnt on the surviving part of each side (e.g. after a nested early return)
+            self.pc.append(tm.or_(tm.and_(cond, *g1), tm.and_(tm.not_(cond), *g2)))
         return self.vite(cond, v1, v2)
 
     def vite(self, c, a, b):
@@ -456,7 +472,7 @@ class Ev(object):
         return Store(cells, True)
 
     # ------------------------------------------------------------------ calls
-    def call_body(self, prog, body, args, genv=None, parent=None, name=None):
+    def call_body(self, prog, body, args, genv=None, parent=None, name=None, site=None):
         if len(self.call_stack) > self.max_depth:
             raise Unsupported("call depth")
         fr = Frame(prog, body, parent=parent, genv=genv)
@@ -469,11 +485,13 @@ class Ev(object):
             if p["pat"] is not None:
                 self.bind_irrefutable(fr, p["pat"], a)
         self.call_stack.append(name or body["path"])
+        self.call_sites.append(site if site is not None else self.cur_site)
         self.active_frames.append(fr)
         try:
             v = self.eval(fr, body["root"])
         finally:
             self.call_stack.pop()
+            self.call_sites.pop()
             self.active_frames.pop()
         return self.finish_frame(fr, v)
 
@@ -558,6 +576,12 @@ class Ev(object):
                 if body is not None:
                     oprog = self.prog.owner_program(target_def)
                     return self.call_body(oprog, body, args, genv=dgenv)
+        if target_def is not None and self.opaque_defs:
+            b0 = self.prog.body(target_def)
+            if b0 is not None and (target_def in self.opaque_defs or b0["path"] in self.opaque_defs
+                                   or any(b0["path"].endswith("::" + o) for o in self.opaque_defs)):
+                return self.models.opaque_call(self, fty, "summary:" + b0["path"].split("::")[-1]
+                                               if False else "summary:" + _short_path(b0["path"]), args, cx)
         if target_def is not None:
             body = self.prog.body(target_def)
             if body is not None:
@@ -620,14 +644,19 @@ class Ev(object):
                                    lambda: self.apply(f.a[2], args, cx))
         return mk("apply", f, *args)
 
-    def reify(self, f, nparams, prefix="x"):
+    def reify(self, f, nparams, prefix="x", elem_of=None):
         """Turn a callable into a lambda term by calling it on fresh symbols.
+        `elem_of`: the iterator the (unary) callable will be applied to; its filter predicates
+        are assumed for the parameter while the body is evaluated.
         Returns (lam, changed_store: bool)."""
         if isinstance(f, T) and f.op == "lam":
             return f, False
         syms = [tm.fresh(prefix) for _ in range(nparams)]
         before = dict(self.store.cells)
         n0 = len(self.pc)
+        if elem_of is not None and nparams == 1:
+            for fl in _filters_of(elem_of):
+                self.assume(tm.apply_lam(fl, [syms[0]]))
         v = self.apply(f, syms)
         del self.pc[n0:]
         changed = False
@@ -740,6 +769,13 @@ class Ev(object):
         if tk["k"] == "prim":
             n = tk["n"]
             if n == "str":
+                if s.startswith("Branch(["):
+                    try:
+                        inner = s[len("Branch(["):s.index("])")]
+                        bs = bytes(int(x.strip().split("_")[0]) for x in inner.split(",") if x.strip())
+                        return tm.string(bs.decode("utf-8"))
+                    except Exception:
+                        return mk("patconst", s)
                 return tm.string(_unquote(s))
             if n == "bool":
                 return tm.boolean(s.strip() == "true")
@@ -1131,6 +1167,8 @@ class Ev(object):
                 return BOTTOM
         cx = {"ret_ty": e["ty"], "loc": e["loc"], "arg_tys": [fr.exprs[a]["ty"] for a in e["args"]],
               "expr": e, "mac": e.get("mac"), "arg_ids": e["args"]}
+        if not e.get("mac"):
+            self.cur_site = e["loc"]
         if fty["k"] != "fndef":
             f = self.eval(fr, e["fun"])
             return self.apply(f, args, cx)
@@ -1267,6 +1305,31 @@ def _atoms(t, out=None, seen=None):
     else:
         out.append(t)
     return out
+
+
+def _short_path(p):
+    p = p.replace("cteepbd::", "")
+    return p
+
+
+_EMB = {}
+
+
+def _embedded_cond(g):
+    """A condition of an `ite` nested inside a comparison (None if there is none)."""
+    r = _EMB.get(g.id, 0)
+    if r != 0:
+        return r
+    r = None
+    for t in tm.subterms(g):
+        if t.op == "ite" and t.a[0].op != "bool":
+            c = t.a[0]
+            ats = _atoms(c)
+            if ats:
+                r = ats[0]
+                break
+    _EMB[g.id] = r
+    return r
 
 
 def _akey(a):
